@@ -43,10 +43,20 @@ theorem C13_assemble_prefix_header (k hashLen mbs readLen : Nat) (content track 
 
 /-- The repair loop is sequential: block lists sharing their first `j` blocks write the same first
 `j` blocks. -/
-theorem C13_loop_prefix (O : Ops) (fast : Bool) (thr : Nat) (l1 l2 : List AsmBlock) (j : Nat)
+theorem C13_loop_prefix (O : Ops) (fast : Bool) (mbs thr : Nat) (l1 l2 : List AsmBlock) (j : Nat)
     (h : l1.take j = l2.take j) :
-    (runLoop O fast thr l1).written.take j = (runLoop O fast thr l2).written.take j := by
-  rw [runLoop_take O fast thr l1 j, runLoop_take O fast thr l2 j, h]
+    (runLoop O fast mbs thr l1).written.take j = (runLoop O fast mbs thr l2).written.take j := by
+  rw [runLoop_take O fast mbs thr l1 j, runLoop_take O fast mbs thr l2 j, h]
+
+/-- The block cut by the truncation (incomplete stored ecc) is never replaced on the strength of
+the ecc check: it is written as it is, or as a value matching its (complete) stored hash — so an
+intact block is not damaged on account of the incomplete entry. -/
+theorem C13_cut_block_safe (O : Ops) (fast : Bool) (mbs : Nat) (b : AsmBlock)
+    (h : b.ecc.length < mbs - b.k) :
+    (processBlock O fast mbs b).1 = b.msg ∨ O.H (processBlock O fast mbs b).1 = b.hash := by
+  apply C04_truncated_ecc_needs_hash
+  simp only [eccComplete, decide_eq_false_iff_not]
+  omega
 
 /-- No file is damaged on account of a truncated track: output length = input length (both tools). -/
 theorem C13_length (O : Ops) (hlen : DecLen O) (fast : Bool) (thr k hashLen mbs readLen : Nat) (kOf : Nat → Nat)
